@@ -29,7 +29,7 @@ VARIABLES l,
                       \* not the automaton's last_ts field: "left without input for longer than its timeout")
 vars == << l, tbl, mT, sT, full, lastFrame, lastHello, lastNi, lastIn >>
 
-NoFull == [ms |-> 0, live |-> {}, es |-> 0, hto |-> 0 - 1, bto |-> 0 - 1, lasttx |-> 0, ni |-> << 0, 45 >>, r |-> << 0, 0 >>, begun |-> 0]
+NoFull == [ms |-> 0, live |-> {}, es |-> 0, hto |-> 0 - 1, bto |-> 0 - 1, lasttx |-> 0, ni |-> << 0, 45 >>, r |-> << 0, 0 >>, begun |-> 0, ctc |-> 0, cdl |-> 0 - 1]
 
 TraceInit ==
   /\ l = 1 /\ tbl = {} /\ mT = << 0, 0, 0 >> /\ sT = << 0, 0, 0, 0 >>
@@ -54,7 +54,14 @@ Unset == 0 - 1000000000
 FullOf(ev) == [ms |-> ev.ms, live |-> LiveSet(ev), es |-> ev.es,
                hto |-> IF ev.hto = Unset THEN 0 - 1 ELSE ev.now + ev.hto,      \* absolute deadlines (ms), -1 = unset
                bto |-> IF ev.bto = Unset THEN 0 - 1 ELSE ev.now + ev.bto,
-               lasttx |-> ev.lasttx, ni |-> ev.ni, r |-> ev.r, begun |-> ev.begun]
+               lasttx |-> ev.lasttx, ni |-> ev.ni, r |-> ev.r, begun |-> ev.begun, ctc |-> ev.ctc,
+               cdl |-> 0 - 1]       \* charge deadline (seconds): the monitor's own record, set by TGlue / TTick below
+
+(* charge counter (beyond the listed properties, "XGLUE"): a Charge frame increments it and (re)starts a 1 s   *)
+(* timeout; the tick that finds the timeout expired - or ends the session for inactivity - resets it to 0     *)
+CtcDue(f, nows) == f.cdl >= 0 /\ nows >= f.cdl
+CtcAfterTick(c, f, nows, ended) == IF ended \/ CtcDue(f, nows) THEN 0 ELSE c
+CdlAfterTick(f, nows, ended) == IF ended \/ CtcDue(f, nows) THEN 0 - 1 ELSE f.cdl
 
 (* relative-clock mapping onto the state of TickPacing *)
 ClsHto(abs, now) == IF abs < 0 THEN "unset" ELSE IF abs <= now THEN "due" ELSE IF abs - now < 1000 THEN "soon" ELSE "late"
@@ -175,7 +182,8 @@ TTick ==
      /\ (Primary = "C14" /\ had /\ full.ms # 0 => TLCSet(2, TLCGet(2) \cup {<< "tick", mustEnd, mustNot >>}))
      /\ (Primary = "C12" /\ Len(ev.hellos) > 0 => TLCSet(2, TLCGet(2) \cup {l}))
      /\ lastHello' = LastHelloAfter(ev.hellos, lastHello)
-     /\ full' = FullOf(ev) /\ tbl' = LiveSet(ev)
+     /\ Chk("XGLUE") => ev.ctc = CtcAfterTick(full.ctc, full, nows, full.ms # 0 /\ ev.ms = 0)
+     /\ full' = [FullOf(ev) EXCEPT !.cdl = CdlAfterTick(full, nows, full.ms # 0 /\ ev.ms = 0)] /\ tbl' = LiveSet(ev)
      /\ lastIn' = (IF ev.ms # full.ms THEN << nows, lastIn[2] >> ELSE lastIn)
      /\ l' = l + 1 /\ UNCHANGED << mT, sT, lastFrame, lastNi >>
 
@@ -225,7 +233,11 @@ TGlue ==
   /\ (Primary = "C12" /\ Len(ev.hellos) > 0 => TLCSet(2, TLCGet(2) \cup {l}))
   /\ lastHello' = LastHelloAfter(ev.hellos, lastHello)
   /\ lastFrame' = << ev.now, ev.now \div 1000 >>
-  /\ full' = FullOf(ev) /\ tbl' = LiveSet(ev)
+  /\ LET charged == [full EXCEPT !.ctc = IF ev.op = OpCharge THEN (full.ctc + 1) % 256 ELSE full.ctc,
+                                  !.cdl = IF ev.op = OpCharge THEN ev.now0 \div 1000 + 1 ELSE full.cdl]
+     IN /\ Chk("XGLUE") => ev.ctc = CtcAfterTick(charged.ctc, charged, ev.now \div 1000, FALSE)
+        /\ full' = [FullOf(ev) EXCEPT !.cdl = CdlAfterTick(charged, ev.now \div 1000, FALSE)]
+  /\ tbl' = LiveSet(ev)
   /\ lastIn' = << ev.now \div 1000, ev.now \div 1000 >>
   /\ l' = l + 1 /\ UNCHANGED << mT, sT, lastNi >>
 
@@ -236,7 +248,7 @@ THeard ==
   \* C13: r is the number of Hellos heard - every one of them counts
   /\ Chk("C13") => ((full.r[1] = 0 /\ full.r[2] + ev.n < 65536) => ev.r = << 0, full.r[2] + ev.n >>)
   /\ (Primary = "C13" => TLCSet(2, TLCGet(2) \cup {<< "heard", full.r, ev.n >>}))
-  /\ full' = FullOf(ev) /\ tbl' = LiveSet(ev)
+  /\ full' = [FullOf(ev) EXCEPT !.cdl = full.cdl] /\ tbl' = LiveSet(ev)
   /\ l' = l + 1 /\ UNCHANGED << mT, sT, lastFrame, lastHello, lastNi, lastIn >>
 
 (* the embedded entry point (os/esp32, os/linux embedded; beyond the listed properties, Check id "XEMB"): *)
